@@ -39,7 +39,7 @@ func oracleRun(bin string, wall time.Duration, corpusPath string, order string, 
 		args = append(args, "-free")
 	}
 	if order == "soak" {
-		args = append(args, "-soak", strconv.Itoa(soakCallsFor()))
+		args = append(args, "-soak", strconv.Itoa(soakCallsFor()), "-budget-ms", strconv.FormatInt(wall.Milliseconds()/3, 10))
 	}
 	if ids != nil {
 		s := make([]string, len(ids))
@@ -579,7 +579,8 @@ func runSims(b builds, cfg tierCfg, free bool) *simAgg {
 					continue
 				}
 				args := []string{"sim", "-seed", strconv.FormatUint(seed, 10), "-proc", strconv.Itoa(j.proc), "-runs", strconv.Itoa(cfg.runs),
-					"-corpus", corpusPath, "-expected", expPath, "-build", j.build, "-maxstep", strconv.FormatInt(cfg.maxStep, 10)}
+					"-corpus", corpusPath, "-expected", expPath, "-build", j.build, "-maxstep", strconv.FormatInt(cfg.maxStep, 10),
+					"-budget-ms", strconv.FormatInt(cfg.procWall.Milliseconds()/2, 10)}
 				gmp := 1
 				if free {
 					args = append(args, "-free")
